@@ -86,7 +86,7 @@ Definition from_line (line : string) : result HexLine :=
   end.
 
 (* ---------------- regions *)
-Definition region := (Z * list Z)%type.
+Notation region := (Z * list Z)%type (only parsing).
 Definition r_end (r : region) : Z := fst r + len (snd r).
 Fixpoint bytes_eqb (a b : list Z) : bool :=
   match a, b with
